@@ -81,6 +81,21 @@ Theorem C13_source_add_edges : forall gg vtv tv s es, ginv s -> rep_gstate gg vt
   | PyExn (gg', vtv', tv') => snd (add_edges s es) = false /\ rep_gstate gg' vtv' tv' (fst (add_edges s es)) end.
 Proof. intros. apply add_edges_refines; assumption. Qed.
 Print Assumptions C13_source_add_edges.
+(* the constructor CFGraph(vertices, edges), translated from the CURRENT source: an empty row and a zero valence for every vertex - in whatever order the set is
+   iterated (so) - then add_edges; the new object represents exactly the model's add_edges from the edgeless graph on these vertices (so every constructed graph
+   satisfies the invariant, C13_history), and a refused entry raises after the earlier entries were applied to the half-built object *)
+Theorem C13_source_constructor : forall n vs so es, rep_vset n vs -> NoDup vs -> (forall l, Permutation.Permutation (so l) l) ->
+  match TranslatedImpCFGraph.CFGraph___init__ so vs es with
+  | PyOk (vsf, gg, vtv, tv) => vsf = vs /\ snd (add_edges (ginit n) es) = true /\ rep_gstate gg vtv tv (fst (add_edges (ginit n) es))
+  | PyExn (vsf, gg, vtv, tv) => snd (add_edges (ginit n) es) = false /\ rep_gstate gg vtv tv (fst (add_edges (ginit n) es)) end.
+Proof. exact graph_ctor_refines. Qed.
+Print Assumptions C13_source_constructor.
+Example C13_source_constructor_nonvacuous :
+  match TranslatedImpCFGraph.CFGraph___init__ (fun l => rev l) [0;1;2]%nat [(0%nat, 1%nat, 2); (1%nat, 2%nat, 1)] with
+  | PyOk (vsf, gg, vtv, tv) => tv = 3 /\ d_find 1%nat vtv = Some 3 /\ d_keys gg = [2;1;0]%nat | PyExn _ => False end /\
+  match TranslatedImpCFGraph.CFGraph___init__ (fun l => l) [0;1;2]%nat [(0%nat, 1%nat, 2); (1%nat, 1%nat, 1); (1%nat, 2%nat, 1)] with
+  | PyOk _ => False | PyExn (vsf, gg, vtv, tv) => tv = 2 /\ d_find 2%nat vtv = Some 0 end.
+Proof. vm_compute. repeat split. Qed.
 (* every state satisfying the invariant has such dictionaries *)
 Theorem C13_source_states_representable : forall s, ginv s -> rep_gstate (dict_of_graph (adj s)) (dict_of_div (valc s)) (tot s) s.
 Proof. intros s (Hwf & HL & _). split; [apply rep_graph_of; exact Hwf|]. split; [rewrite <- HL; apply rep_div_of|reflexivity]. Qed.
